@@ -75,7 +75,8 @@ func fullDomain(t *rapid.T, name string, typ reflect.Type, f *ref.Field) int64 {
 		case 2:
 			return int64(rapid.IntRange(0, 1<<24-1).Draw(t, name+"r")) * 100
 		case 3:
-			return 2400000000 + int64(rapid.IntRange(0, 9554432).Draw(t, name+"g"))*100
+			// around the 200 Hz raster of the 2.4 GHz range: on a step, 1 / 99 / 100 / 101 / 199 Hz off
+			return 2400000000 + int64(rapid.IntRange(0, 4777215).Draw(t, name+"g"))*200 + rapid.SampledFrom([]int64{0, 0, 1, 99, 100, 101, 199}).Draw(t, name+"off")
 		case 4:
 			return 1200000000 + int64(rapid.IntRange(0, 4777215).Draw(t, name+"k"))*100
 		default:
